@@ -13,8 +13,11 @@
 (*   ReadAll(c, s)     get_all_trials = Fetch + serve from cache: judged against the backend          *)
 (*   ReadOne(c, t)     get_trial: cache if known and finished, else backend                           *)
 (* FixCreate = FALSE is the pre-repair create_new_trial (watermark advanced by a finished template)   *)
+(* PointReadCaches = TRUE is a get_trial that, on a miss of a finished trial whose id the cache knows, *)
+(* keeps the row and advances the watermark to it "like the bulk reader does" (negative instance:     *)
+(* one row proves nothing about smaller ids; only a complete snapshot may move the watermark)         *)
 EXTENDS Integers, FiniteSets, TLC
-CONSTANTS Clients, Studies, MaxTrials, FixCreate
+CONSTANTS Clients, Studies, MaxTrials, FixCreate, PointReadCaches
 
 VARIABLES trials,                  \* backend: id -> [s, num, fin, ver]
           cached, unf, wm,         \* per client, per study
@@ -68,9 +71,15 @@ ReadAll(c, s) ==
 ReadOne(c, t) ==
   /\ t \in Ids
   /\ LET s == trials[t].s  n == trials[t].num
-         known == n \in DOMAIN cached[c][s] /\ cached[c][s][n].id = t /\ t \notin unf[c][s] IN
-     bad' = bad \cup (IF known /\ cached[c][s][n] # Snap(t) THEN {<<"get_trial", c, t>>} ELSE {})
-  /\ UNCHANGED <<trials, cached, unf, wm>>
+         idknown == n \in DOMAIN cached[c][s] /\ cached[c][s][n].id = t
+         known == idknown /\ t \notin unf[c][s]
+         keep == PointReadCaches /\ idknown /\ ~known /\ trials[t].fin IN
+     /\ bad' = bad \cup (IF known /\ cached[c][s][n] # Snap(t) THEN {<<"get_trial", c, t>>} ELSE {})
+     /\ IF keep THEN /\ cached' = [cached EXCEPT ![c][s] = Upd(@, n, Snap(t))]
+                     /\ unf' = [unf EXCEPT ![c][s] = @ \ {t}]
+                     /\ wm' = [wm EXCEPT ![c][s] = Max({@, t})]
+               ELSE UNCHANGED <<cached, unf, wm>>
+  /\ UNCHANGED trials
 
 Next == \/ \E c \in Clients, s \in Studies, f \in BOOLEAN : Create(c, s, f)
         \/ \E t \in 0..(MaxTrials - 1), f \in BOOLEAN : Write(t, f)
@@ -84,4 +93,7 @@ FinishedNeverStale == \A c \in Clients, s \in Studies : \A n \in DOMAIN cached[c
                          cached[c][s][n].fin => cached[c][s][n] = Snap(cached[c][s][n].id)
 UnfIsUnfinishedInCache == \A c \in Clients, s \in Studies : \A t \in unf[c][s] :
                          \E n \in DOMAIN cached[c][s] : cached[c][s][n].id = t /\ ~cached[c][s][n].fin
+\* everything at or below a watermark has been seen by that cache (what makes  id > wm  a complete query)
+WatermarkSound == \A c \in Clients, s \in Studies : \A t \in IdsOf(s) :
+                         t <= wm[c][s] => \E n \in DOMAIN cached[c][s] : cached[c][s][n].id = t
 ==================================================================================
